@@ -181,6 +181,12 @@ def history_machine(rng):
         nodes[out_].on.append((e, [Trans(next(tid), out_, e, h)]))
     nodes[out_].on.append(("IN", [Trans(next(tid), out_, "IN", p)]))
     events.append("IN")
+    # ... and, on half of the machines, from INSIDE the parent: the parent is left and re-entered by the same transition, and
+    # what is restored is what was recorded by the last exit inside the parent (every move between its children records)
+    am.has_back = rng.random() < 0.5
+    if am.has_back:
+        nodes[p].on.append(("BACK", [Trans(next(tid), p, "BACK", hists[0])]))
+        events.append("BACK")
     return am, events, len(leaves), len(hists)
 
 
@@ -200,6 +206,10 @@ def family(rng, n):
             seq += ["H%d" % rng.randrange(nh)]
             if rng.random() < 0.5:
                 seq += ["OUT", "H%d" % rng.randrange(nh)]
+            if getattr(am, "has_back", False):
+                # moves inside the parent, then back through the history state without leaving the parent first
+                for _ in range(rng.randint(1, 2)):
+                    seq += ["L%d" % rng.randrange(nl) for _ in range(rng.randint(1, 3))] + ["BACK"]
             runs.append(({}, [(e, "plain", j + 1) for j, e in enumerate(seq)]))
         cases.append((am, ("sync", "async")[i % 2], runs, None))
     return cases
@@ -212,7 +222,7 @@ def run(rep, ctx):
     fams = [("hist", family(rng, 1200 if big else 160),
              "history machines: shallow and/or deep history children under a compound or parallel parent (optionally nested, with a default "
              "target), subtrees 2-3 levels deep; histories: never visited / visited once / repeatedly with different leaves, "
-             "re-entered through each history state from outside the parent"),
+             "re-entered through each history state from outside the parent and (half of the machines) from inside it"),
             ("random", common.random_family(rng, 800 if big else 160, features=dict(history=True)), "seeded random machines with history states")]
     for name, cases, rule in fams:
         dis, fails, stats = common.run_macro_property(rep, ctx, "c11_" + name, cases, monitor, rule)
